@@ -32,8 +32,8 @@ LEVEL_ASSUMPTIONS = [
     "cannot classify a change the packability clause is inconclusive for "
     "that call (exhaustive packer for <= 7 items instead)"]
 REQUIRED = {"template[synthetic-unit-filled]": 10,
-            "template[synthetic-thin]": 10, "decodes_judged": 500, "witness_layouts_judged": 400,
-            "tracer_splits": 2000, "tracer_shrinks": 300,
+            "template[synthetic-thin]": 10, "decodes_judged": 500,
+            "witness_layouts_judged": 400,
             "hardness_evaluations": 10, "errors_of_template_zero": 5,
             "extreme_value_vectors": 100}
 
@@ -68,7 +68,8 @@ def install(ctx):
     if TRACER is not None:
         return
     orig = InstanceDecoder.decode
-    TRACER = DecodeTracer(orig.__code__)
+    import moptipyapps.binpacking2d.instgen.inst_decoding as idm
+    TRACER = DecodeTracer(orig.__code__, idm)
     ok = TRACER.install()
     if not ok:
         ctx.note("sys.monitoring tracer not available")
@@ -170,8 +171,18 @@ def judge_decode(ctx, sp, x, y, tr):
                               f"own cuts is not a packing of the instance in "
                               f"{sp.min_bins} bins: {why}", case)
         else:
-            ctx.count("tracer_lost")
-            ctx.note(f"tracer lost: {tr.why_lost}")
+            ctx.count(f"tracer_{tr.state}")
+            ctx.note(f"tracer {tr.state}: {tr.why_lost}")
+    if not judged:
+        # black box: any packing an independent bottom-left model finds in
+        # min_bins bins is a witness; finding none decides nothing
+        found = heuristic_witness(ctx, desc, sp.min_bins)
+        if found:
+            ctx.count("witness_layouts_judged")
+            ctx.count("witness_by_heuristic_packing")
+            judged = True
+        else:
+            ctx.count("witness_undecided")
     if not judged and inst.n_items <= 7:
         rects = []
         for w, h, r in desc["items"]:
@@ -185,6 +196,30 @@ def judge_decode(ctx, sp, x, y, tr):
                               f"own search needs {k} bins", case)
     if tr is not None and tr.events["shrink"] > 0:
         ctx.nontrivial(case.get("template"), case.get("x"))
+
+
+def heuristic_witness(ctx, desc, k) -> bool:
+    from vlib.oracles import ibl
+    seq = wb.base_sequence(desc)
+    items = desc["items"]
+    keys = [lambda i: -items[i - 1][0] * items[i - 1][1],
+            lambda i: -items[i - 1][1], lambda i: -items[i - 1][0],
+            lambda i: -max(items[i - 1][:2])]
+    rng = np.random.default_rng(len(seq))
+    for t in range(24):
+        if t < len(keys):
+            perm = sorted(seq, key=keys[t])
+        else:
+            perm = [int(v) for v in rng.permutation(seq)]
+        for ff in (True, False):
+            try:
+                rows, nb, _ = ibl.decode(desc["W"], desc["H"], items, perm,
+                                         first_fit=ff)
+            except Exception:  # noqa: BLE001
+                return False
+            if nb <= k and po.infeasibility(desc, rows, k) is None:
+                return True
+    return False
 
 
 EXTREMES = [-1.0, float(np.nextafter(-1.0, 0.0)), -0.5, -0.0, 0.0, 0.5,
